@@ -201,7 +201,7 @@ def run(tier):
                     needles.append({"name": "customer-key", "bytes": m["ck"]})
             rec.add({"op": "c06.scan", "text": L.chars(text), "needles": needles})
         # cipher missing / failing: writing must fail and emit nothing
-        saved = getattr(_crypto, "_" + "_AES128")
+        saved = B2.current_backends()["AES128"]
         try:
             for cls, nm in ((_crypto.AES128, "unregistered"), (Raising, "raising"), (PartlyRaising, "encrypt-raising")):
                 for _ in range(4):
